@@ -50,6 +50,7 @@ type Env struct {
 	Workers  int
 	BuildS   float64
 	Std      map[string][]byte // std/*.tsh of the working tree, by base name
+	CoverDir string            // set when VERIF_COVER is given
 	seq      atomic.Int64
 	procs    atomic.Int64
 }
@@ -133,8 +134,21 @@ func NewEnv() (*Env, error) {
 	var err1, err2 error
 	var out1, out2 string
 	wg.Add(2)
-	go func() { defer wg.Done(); out1, err1 = run(src, goEnv(), "go", "build", "-o", e.Harness, "./simharness") }()
-	go func() { defer wg.Done(); out2, err2 = run(src, goEnv(), "go", "build", "-o", e.Tsh, ".") }()
+	bargs := []string{"build"}
+	if os.Getenv("VERIF_COVER") != "" {
+		// development aid: statement coverage of the code under test reached by a check
+		e.CoverDir = filepath.Join(dir, "cov")
+		os.MkdirAll(e.CoverDir, 0o755)
+		bargs = append(bargs, "-cover", "-coverpkg=./...")
+	}
+	go func() {
+		defer wg.Done()
+		out1, err1 = run(src, goEnv(), "go", append(append([]string{}, bargs...), "-o", e.Harness, "./simharness")...)
+	}()
+	go func() {
+		defer wg.Done()
+		out2, err2 = run(src, goEnv(), "go", append(append([]string{}, bargs...), "-o", e.Tsh, ".")...)
+	}()
 	wg.Wait()
 	if err1 != nil {
 		e.Close()
@@ -173,6 +187,12 @@ func (e *Env) BuildReal() error {
 }
 
 func (e *Env) Close() {
+	if e.CoverDir != "" {
+		out := os.Getenv("VERIF_COVER")
+		ents, _ := os.ReadDir(e.CoverDir)
+		o, err := run(filepath.Join(e.Dir, "src"), goEnv(), "go", "tool", "covdata", "textfmt", "-i="+e.CoverDir, "-o="+out)
+		fmt.Fprintln(os.Stderr, "coverage profile written to", out, len(ents), "data files", err, o)
+	}
 	if e.Dir != "" {
 		os.RemoveAll(e.Dir)
 	}
@@ -207,6 +227,9 @@ func (e *Env) runWorker(plan *simrt.WorkerPlan) (res []simrt.CallResult, ended b
 	defer cancel()
 	cmd := exec.CommandContext(ctx, e.Harness, "-plan", pp, "-out", op)
 	cmd.Env = []string{"GOMAXPROCS=" + gomaxprocsForWorker(), "GOTRACEBACK=single"}
+	if e.CoverDir != "" {
+		cmd.Env = append(cmd.Env, "GOCOVERDIR="+e.CoverDir)
+	}
 	var se bytes.Buffer
 	cmd.Stderr = &limitedWriter{w: &se, n: 1 << 16}
 	cmd.Stdout = nil
@@ -403,6 +426,9 @@ func (e *Env) RunTsh(spec *simrt.WorldSpec, bin string) (*TshResult, error) {
 	}
 	cmd := exec.CommandContext(ctx, bin)
 	cmd.Env = []string{"SIMRT_PLAN=" + pp, "SIMRT_OUT=" + jp, "GOMAXPROCS=2", "GOTRACEBACK=single"}
+	if e.CoverDir != "" {
+		cmd.Env = append(cmd.Env, "GOCOVERDIR="+e.CoverDir)
+	}
 	cmd.Dir = filepath.Join(e.Dir, "io")
 	var se bytes.Buffer
 	cmd.Stderr = &limitedWriter{w: &se, n: 1 << 14}
